@@ -100,6 +100,14 @@ func cmdMutant(args []string) {
 		}
 	}
 	os.RemoveAll(work)
+	for _, sc := range cfg.Static {
+		if sc == "global-writes" {
+			fs, _, _ := eng.scanGlobalWrites()
+			for _, f := range fs {
+				failed[f.Name()] = true
+			}
+		}
+	}
 	var ab []string
 	for _, run := range pr.aborted {
 		ab = append(ab, run.key+": "+run.aborted)
